@@ -4,7 +4,7 @@
    one of the 15 codes the decoder handles after percent-2-5", a decidable predicate on the original string that the model runner
    evaluates on every generated case - and the class is sharp on its shortest members (each late code itself fails).  The query and
    form parsers around the codec: C17_parse_query_spec for one pair, representative maps by computation, correspondence for the rest. *)
-From Rws Require Import Str Utf8 Num Request GenCodec Forms C17Proof C17Round C17General C17Map.
+From Rws Require Import Str Utf8 Num Request GenCodec Forms C17Proof C17Round C17General C17Map C17Collide.
 Open Scope N_scope.
 
 Definition C17_full : Prop := forall s, decode_uri (encode_uri s) = s.
@@ -63,3 +63,16 @@ Theorem C17_fields_domain :
   form_text_ok (build_query [([107;32;49], [118;38;61;37]); ([195;169], [240;159;152;128]); ([97;61;98], [63;35;47;13;10]); ([120], [37;52;49]); ([121], [])]) = true /\
   map_ok [([107], [37;50;54])] = false /\ map_ok [([107], [1]); ([107], [2])] = false /\ map_ok [([], [1])] = false.
 Proof. exact map_ok_example. Qed.
+
+(* NAMES MAY REPEAT: for every non-empty list of fields outside the class - the distinct-names hypothesis dropped - looking a name up in
+   what the query parser returns gives the value of the LAST field submitted under that name (and nothing for a name never submitted),
+   the returned list holds every name once, and the form-body parser returns the same list whenever the text passes its filter. *)
+Theorem C17_last_value_wins : forall m, fields_ok m = true ->
+  (forall k, lookup k (parse_query (build_query m)) = last_value k m) /\ distinct_keys (parse_query (build_query m)) = true /\
+  (form_text_ok (build_query m) = true -> form_urlencoded_parse (build_query m) = Some (parse_query (build_query m))).
+Proof. exact last_value_wins. Qed.
+Theorem C17_last_value_domain :
+  let m := [([107], [49]); ([120], [37;52;49]); ([107], [50]); ([107], [])] in
+  fields_ok m = true /\ map_ok m = false /\ last_value [107] m = Some [] /\ last_value [120] m = Some [37;52;49] /\ last_value [121] m = None /\
+  length (parse_query (build_query m)) = 2%nat.
+Proof. exact last_value_example. Qed.
